@@ -207,6 +207,25 @@ func c07Cases(ctx *lib.Ctx) []c07Case {
 				c07Case{fmt.Sprintf("scale/and-or-width-%d-depth-%d", width, depth), c07Wrap("andor", build(depth, false))})
 		}
 	}
+	// distributions of validations over the three levels: a validation under two or three levels, a level that
+	// lists only validations already listed before, empty and missing levels, names listed twice
+	vnames := []string{"v1", "v2", "v3"}
+	lists := [][]string{nil, {}, {"v1"}, {"v2"}, {"v1", "v2"}, {"v1", "v1"}, {"v3", "v1"}}
+	for vi, viol := range lists {
+		for wi, warn := range lists {
+			for ii, info := range lists {
+				if ctx.Quick() && (vi+2*wi+3*ii)%3 != 0 {
+					continue
+				}
+				p := &lib.ProfileDoc{Name: "c07 levels", Prefixes: [][2]string{{"ex", lib.EX}}, Violation: viol, Warning: warn, Info: info,
+					HasViolation: viol != nil, HasWarning: warn != nil, HasInfo: info != nil}
+				for k, n := range vnames {
+					p.Validations = append(p.Validations, lib.Validation{Name: n, TargetClass: "ex.T", Message: "m", Body: lib.PC1(fmt.Sprintf("ex.l%d", k), lib.CScalar("minCount", lib.Int(1)), quant(k))})
+				}
+				cases = append(cases, c07Case{fmt.Sprintf("levels/v%d-w%d-i%d", vi, wi, ii), p})
+			}
+		}
+	}
 	// profile names that sanitise to the same package name
 	for _, nm := range []string{"my profile", "my-profile", "MY_PROFILE", "my.profile", "my/profile/1.0", "1", "profile", "ünïcode name", "a  b", "-", "report", "data", "input", "violation"} {
 		p := c07Wrap("x", leaf)
@@ -219,7 +238,7 @@ func c07Cases(ctx *lib.Ctx) []c07Case {
 // C07: every well-formed declarative profile compiles (and the compiled policy can be evaluated).
 func c07(tier string) {
 	ctx := lib.NewCtx("C07", tier)
-	ctx.Rule = "complete pairwise matrix: every documented constraint kind (all atoms, nested, atLeast, atMost, combinations in one mapping) x 16 path-shape classes x {plain, under not} x {top level, inside nested, inside atLeast over an alternative path, inside or/and}; negation directly above every connective and pairs of connectives; scaling sweeps (1..N quantified constraints flat / inside nested / two levels, nesting depth 1..10 x width 1..3, 1..N validations over three levels, and/or width 2..6 x depth 1..3, profile names sanitising to the same package); plus seeded random formula families; every profile must compile AND evaluate on a small graph; " +
+	ctx.Rule = "complete pairwise matrix: every documented constraint kind (all atoms, nested, atLeast, atMost, combinations in one mapping) x 16 path-shape classes x {plain, under not} x {top level, inside nested, inside atLeast over an alternative path, inside or/and}; negation directly above every connective and pairs of connectives; scaling sweeps (1..N quantified constraints flat / inside nested / two levels, nesting depth 1..10 x width 1..3, 1..N validations over three levels, and/or width 2..6 x depth 1..3, profile names sanitising to the same package); distributions of validations over the three levels (a validation under two or three levels, levels listing only already-listed validations, empty / missing levels, duplicates); every fourth profile is compiled right after a profile the translator must reject; plus seeded random formula families; every profile must compile AND evaluate on a small graph; " +
 		"non-trivial & distinct = distinct profile text"
 	ctx.Assumptions = []string{"no embedded Rego; only documented constraints; names over [A-Za-z0-9-]; branch cross-products bounded (<= 6^3 leaves per validation)"}
 	nRandom := ctx.N(100, 3000)
@@ -230,7 +249,25 @@ func c07(tier string) {
 	}
 	cases := c07Cases(ctx)
 	data := c02Graph(lib.CaseRand(ctx.Seed, 7, 0)).CanonicalJSONLD()
+	// profiles the translator must REJECT (not well formed): compiled right before some well-formed ones, because
+	// accepting a well-formed profile must not depend on what the process was asked to compile before
+	rejected := []string{
+		"profile: r1\nviolation: [v]\nvalidations:\n  v:\n    targetClass: nope.T\n    propertyConstraints:\n      nope.a:\n        minCount: 1\n",
+		"profile: r2\nprefixes: {ex: \"http://ex.org/\"}\nviolation: [v]\nvalidations:\n  v:\n    targetClass: ex.T\n    propertyConstraints:\n      \"ex.a / / ex.b\":\n        minCount: 1\n",
+		"profile: r3\nprefixes: {ex: \"http://ex.org/\"}\nviolation: [v]\nvalidations:\n  v:\n    targetClass: ex.T\n    propertyConstraints:\n      ex.a:\n        datatype: nope.integer\n",
+		"profile: r4\nprefixes: {ex: \"http://ex.org/\"}\nviolation: [v]\nvalidations:\n  v:\n    targetClass: ex.T\n    rego: \"$result = ((\"\n",
+		"profile: r5\nprefixes: {ex: \"http://ex.org/\"}\nviolation: [v, w]\nvalidations:\n  v:\n    targetClass: ex.T\n    propertyConstraints:\n      ex.a:\n        minCount: 1\n  w:\n    targetClass: ex.T\n    propertyConstraints:\n      ex.a / nope.b:\n        nested:\n          propertyConstraints:\n            ex.c:\n              minCount: 1\n",
+	}
+	judged := 0
 	judge := func(name, ptext string) {
+		judged++
+		if judged%4 == 0 {
+			if c := lib.Compile(rejected[(judged/4)%len(rejected)], nil); c.Failed() {
+				ctx.Count("well_formed_profiles_compiled_right_after_a_rejected_one", 1)
+			} else {
+				ctx.Count("harness_note_rejected_profile_was_accepted", 1)
+			}
+		}
 		ctx.Begin(name, map[string]string{"profile": ptext})
 		cp := lib.Compile(ptext, nil)
 		ctx.End()
